@@ -9,9 +9,17 @@
           → r=…                                  CompressorBase with the codec given as a finite table
   c18run  <ignSrc> <ignRef> <ok|io|other> <ok|io|other> (dom | raise | f <n> status…)
           → exit=<n> | raises
+  c18xml  <hex content> <k> off…                 XmlLite scanner on the prefixes `content[:off]`
+          → r=<0|1>/…
+  c18ser  <none | hex decl> <hex ws1> <hex name> <attrs> <0 | 1 <n> node…> <hex ws2>
+          attrs = <k> {<hex key> <hex value>}…;  node = T <hex> | E <hex name> <attrs> | O <hex name> <attrs> | C
+          → hyp=<Doc.wf> model=<hex of Doc.ser> root=<length of prolog ++ rootInit>
+  c18enc  <h> <b64|raw> <bsz> <n> {<hex plain block> <hex compressed block>}… <hex payload>
+          → model=<hex of encodeComp>             the stored form of a compressed array (codec as a table)
 -/
 import Driver.OpsC13
 import FcModel.Truncation
+import FcModel.C18XmlLite
 namespace Fc.Drv.C18
 open Fc.W Fc.Drv Fc.Drv.C13
 
@@ -100,12 +108,88 @@ def opC18Run : P String := do
   | .ok n => pure s!"exit={n}"
   | .error _ => pure "exit=raises"
 
+
+/-! ### XmlLite -/
+
+def opC18Xml : P String := do
+  let content ← pHex
+  let offs ← pList pNat
+  pure s!"r={joinStr "/" (offs.map fun off => showBool (Fc.XmlLite.scan (content.take off)))}"
+
+inductive XTok where
+  | text (t : List Nat)
+  | empty (n : List Nat) (a : Fc.XmlLite.Attrs)
+  | openE (n : List Nat) (a : Fc.XmlLite.Attrs)
+  | close
+
+def pAttrs : P Fc.XmlLite.Attrs := pList (do let k ← pHex; let v ← pHex; pure (k, v))
+
+def pXTok : P XTok := do
+  let t ← tok
+  match t with
+  | "T" => do let s ← pHex; pure (.text s)
+  | "E" => do let n ← pHex; let a ← pAttrs; pure (.empty n a)
+  | "O" => do let n ← pHex; let a ← pAttrs; pure (.openE n a)
+  | "C" => pure .close
+  | _ => failure
+
+/-- the forest of a pre-order token list, built from the right with a stack of sibling lists;
+    `none` = unbalanced -/
+def buildForest (toks : List XTok) : Option Fc.XmlLite.Forest :=
+  let stepR (st : Option (List Fc.XmlLite.Forest)) (t : XTok) : Option (List Fc.XmlLite.Forest) :=
+    match st with
+    | none => none
+    | some stack =>
+      match t, stack with
+      | .close, _ => some (.nil :: stack)
+      | .text s, top :: rest => some (.text s top :: rest)
+      | .empty n a, top :: rest => some (.empty n a top :: rest)
+      | .openE n a, children :: next :: rest => some (.elem n a children next :: rest)
+      | _, _ => none
+  match toks.reverse.foldl stepR (some [.nil]) with
+  | some [f] => some f
+  | _ => none
+
+def opC18Ser : P String := do
+  let d ← tok
+  let decl ← (if d == "none" then pure none else
+    match bytesOfHexChars (if d == "-" then [] else d.toList) with
+    | some bs => pure (some bs)
+    | none => failure : P (Option (List Nat)))
+  let ws1 ← pHex
+  let name ← pHex
+  let attrs ← pAttrs
+  let hasBody ← pBool
+  let body ← (if hasBody then do
+      let toks ← pList pXTok
+      match buildForest toks with
+      | some f => pure (some f)
+      | none => failure
+    else pure none : P (Option Fc.XmlLite.Forest))
+  let ws2 ← pHex
+  let doc : Fc.XmlLite.Doc := ⟨decl, ws1, name, attrs, body, ws2⟩
+  pure s!"hyp={showBool doc.wf} model={hexOfBytes doc.ser} root={(doc.prolog ++ doc.rootInit).length}"
+
+/-! ### the stored form of a compressed array -/
+
+def opC18Enc : P String := do
+  let h ← pNat
+  let E ← pEnc
+  let bsz ← pNat
+  let table ← pList (do let b ← pHex; let c ← pHex; pure (b, c))
+  let payload ← pHex
+  let compress (b : Bytes) : Bytes := ((table.find? (·.1 == b)).map (·.2)).getD []
+  pure s!"model={hexOfBytes (encodeComp h E compress bsz payload)}"
+
 def handleC18 (op : String) : Option (P String) :=
   match op with
   | "c18fb" => some opC18Fb
   | "c18pay" => some opC18Pay
   | "c18comp" => some opC18Comp
   | "c18run" => some opC18Run
+  | "c18xml" => some opC18Xml
+  | "c18ser" => some opC18Ser
+  | "c18enc" => some opC18Enc
   | _ => none
 
 end Fc.Drv.C18
